@@ -59,6 +59,13 @@ pub fn set_counting(on: bool) {
     COUNTING.with(|c| c.set(on));
 }
 
+static FUZZ_MODE: AtomicBool = AtomicBool::new(false);
+/// inside a libFuzzer target: no watchdog bookkeeping at all (libFuzzer has its own -timeout)
+pub fn set_fuzz_mode() {
+    FUZZ_MODE.store(true, Ordering::Relaxed);
+    set_counting(false);
+}
+
 pub fn install_panic_hook() {
     std::panic::set_hook(Box::new(|info| {
         let msg = if let Some(s) = info.payload().downcast_ref::<&str>() {
@@ -179,7 +186,7 @@ impl Shared {
     }
     /// publish the case being executed (for the stall watchdog; C04/C05/C12)
     pub fn watch(&self, v: impl FnOnce() -> Value) {
-        if !Self::counting() {
+        if FUZZ_MODE.load(Ordering::Relaxed) {
             return;
         }
         let id = std::thread::current().id();
@@ -218,7 +225,7 @@ impl Shared {
     }
     /// generic stall detection for every stream: remember (lazily serialisable) what runs
     fn watch_lazy(&self, f: std::sync::Arc<dyn Fn() -> Value + Send + Sync>) {
-        if !Self::counting() {
+        if FUZZ_MODE.load(Ordering::Relaxed) {
             return;
         }
         let id = std::thread::current().id();
